@@ -168,8 +168,19 @@ def replay_parser(rep):
     return False, {"mode": "generated SMT-LIB scripts read by pySMT and by the independent reader: nothing found"}
 
 
+def replay_roundtrip(rep):
+    from native import bounded_smt
+    for seed in (int(rep.get("seed", 0)), 1, 2, 3):
+        r = bounded_smt.roundtrip_check("quick", seed)
+        if r["violations"]:
+            return True, {"mode": "generated formulas / scripts printed and parsed back", "failure": r["violations"][0]}
+    return False, {"mode": "generated formulas / scripts printed and parsed back: nothing found"}
+
+
 def dispatch(rep):
     kind = rep.get("kind")
+    if kind == "roundtrip":
+        return replay_roundtrip(rep)
     if kind == "parser":
         return replay_parser(rep)
     if kind == "printer":
